@@ -5,7 +5,9 @@ package limitlistener
 //   TestVerifC17LLTrace   - seeded concurrent histories: clients dial and hang up, the handler side
 //                           closes (also twice / concurrently), the inner Accept fails now and then,
 //                           the cap is changed through SetMaxConnection (completion unobservable) or
-//                           through the semaphore's SetMaxCount (done channel observed)  (TV)
+//                           through the semaphore's SetMaxCount (done channel observed); calls with the
+//                           value already configured; in a third of the histories the clients stay
+//                           connected across the whole burst of cap changes  (TV)
 //   TestVerifC17LLReplay  - TLC-generated schedules of specs/ConnCap.tla executed step by step: the
 //                           acceptor's Accept call, the inner Accept's return (or failure), closes,
 //                           SetMaxCount calls and - through the gate hook when the tree has it - the
@@ -227,7 +229,19 @@ func TestVerifC17LLTrace(t *testing.T) {
 		via := []string{"api", "sem"}[rng.Intn(2)]
 		overlap := rng.Intn(2) == 0
 		tcp := useTCP && rng.Intn(2) == 0
-		g.reset(cap0, vx.M{"level": "ll", "trace": ti, "via": via, "overlap": overlap, "tcp": tcp})
+		// hold: long-lived connections - the clients do not hang up before the resizer has issued all its
+		// calls (a busy server with keep-alive clients during a burst of reloads), so that a shrink below
+		// the usage stays blocked while the later calls are made.  Resizes overlap then.
+		hold := rng.Intn(3) == 0
+		if hold {
+			overlap = true
+			nrz = 2 + rng.Intn(3)
+		}
+		holdUntil := make(chan struct{})
+		if !hold {
+			close(holdUntil)
+		}
+		g.reset(cap0, vx.M{"level": "ll", "trace": ti, "via": via, "overlap": overlap, "tcp": tcp, "hold": hold})
 
 		var inner net.Listener
 		var pin *c17Inner
@@ -344,6 +358,7 @@ func TestVerifC17LLTrace(t *testing.T) {
 					pin.q <- b
 					cl = a
 				}
+				<-holdUntil
 				time.Sleep(time.Duration(200+r.Intn(1500)) * time.Microsecond)
 				if r.Intn(3) == 0 {
 					runtime.Gosched()
@@ -373,9 +388,28 @@ func TestVerifC17LLTrace(t *testing.T) {
 		// resizer
 		var dwg sync.WaitGroup
 		final := cap0
+		if hold {
+			// let the server fill up (the acceptor then waits for a slot)
+			for k := 0; k < 200; k++ {
+				if o, _ := g.counts(); o >= cap0 || o >= nClients {
+					break
+				}
+				time.Sleep(100 * time.Microsecond)
+			}
+		}
 		for i := 0; i < nrz; i++ {
-			time.Sleep(time.Duration(rng.Intn(600)) * time.Microsecond)
+			gap := rng.Intn(600)
+			if hold {
+				gap = rng.Intn(80)
+			}
+			time.Sleep(time.Duration(gap) * time.Microsecond)
 			n := 1 + rng.Intn(5)
+			if hold {
+				n = 1 + rng.Intn(cap0) // never above the initial cap: the bound of the contract is the tightest
+			}
+			if rng.Intn(4) == 0 || (hold && rng.Intn(4) == 0) {
+				n = final // the value already configured: what a reload that leaves maxConnections alone does
+			}
 			id := g.rz(n)
 			final = n
 			if via == "api" {
@@ -389,6 +423,10 @@ func TestVerifC17LLTrace(t *testing.T) {
 			}
 			dwg.Add(1)
 			go func() { defer dwg.Done(); <-done; g.rzdone(id) }()
+		}
+		if hold {
+			time.Sleep(time.Duration(500+rng.Intn(3000)) * time.Microsecond) // the adjustments that can run do
+			close(holdUntil)
 		}
 		cwg.Wait()
 		// every client has hung up: the handlers close (accepted ones see EOF) ...  (the acceptor may still
@@ -507,6 +545,41 @@ func (gt *c17Gate) waitArrival(k int, d time.Duration) bool {
 	}
 }
 
+func (gt *c17Gate) count() int {
+	gt.mu.Lock()
+	defer gt.mu.Unlock()
+	return len(gt.arrived)
+}
+
+// waitArrivalOrDone waits until the k-th tuner is parked at the gate (returns k) or the call's done
+// channel is closed without a tuner having come to the gate (returns 0: the call was completed
+// without a background adjustment - an implementation is free to do that, e.g. for a call that
+// changes nothing; its tuner steps in a schedule are then empty).  -1 after the deadline.
+func (gt *c17Gate) waitArrivalOrDone(k int, done <-chan struct{}, d time.Duration) int {
+	deadline := time.Now().Add(d)
+	for {
+		if gt.count() >= k {
+			return k
+		}
+		select {
+		case <-done:
+			if gt.count() >= k {
+				return k
+			}
+			return 0
+		default:
+		}
+		if time.Now().After(deadline) {
+			return -1
+		}
+		select {
+		case <-gt.notify:
+		case <-done:
+		case <-time.After(2 * time.Millisecond):
+		}
+	}
+}
+
 func (gt *c17Gate) release(k int) {
 	gt.mu.Lock()
 	defer gt.mu.Unlock()
@@ -606,6 +679,7 @@ func TestVerifC17LLReplay(t *testing.T) {
 		inAccept := false // the acceptor is inside l.Accept()
 		listenerClosed := false
 		var dones []chan struct{}
+		var slots []int // gate slot of the i-th call's tuner; 0: the call completed without one
 		var dwg sync.WaitGroup
 		var clients []net.Conn
 		div := ""
@@ -632,7 +706,9 @@ func TestVerifC17LLReplay(t *testing.T) {
 					} else if pre != vx.Int(st["open"]) && pre-1 != vx.Int(st["open"]) {
 						div = fmt.Sprintf("open=%d at accept, model says %d", pre, vx.Int(st["open"]))
 					}
-				case <-time.After(300 * time.Millisecond):
+				case <-time.After(150 * time.Millisecond):
+					// (not a verdict: the schedule is simply not realisable on this tree, e.g. a schedule of
+					// the unordered-tuner model on a tree whose tuners wait for their predecessors)
 					div = "model accepts here, the real acceptor is still held back"
 				}
 			case "err":
@@ -686,16 +762,23 @@ func TestVerifC17LLReplay(t *testing.T) {
 			case "setmax":
 				n := vx.Int(st["n"])
 				id := g.rz(n)
+				next := gt.count() + 1
 				done := l.sem.SetMaxCount(int64(n))
 				dones = append(dones, done)
 				dwg.Add(1)
 				go func() { defer dwg.Done(); <-done; g.rzdone(id) }()
-				if hook && !gt.waitArrival(len(dones), 2*time.Second) {
-					div = "tuner did not reach the gate"
+				slot := 0
+				if hook {
+					if slot = gt.waitArrivalOrDone(next, done, 2*time.Second); slot < 0 {
+						div = "tuner did not reach the gate"
+					}
 				}
+				slots = append(slots, slot)
 			case "tuner":
 				i := vx.Int(st["i"])
-				gt.release(i)
+				if i <= len(slots) && slots[i-1] > 0 {
+					gt.release(slots[i-1])
+				}
 				if vx.Bool(st["blocks"]) {
 					time.Sleep(1500 * time.Microsecond)
 				} else if i <= len(dones) {
@@ -703,7 +786,7 @@ func TestVerifC17LLReplay(t *testing.T) {
 				}
 			case "tdone":
 				i := vx.Int(st["i"])
-				if i <= len(dones) && !c17Wait(dones[i-1], 300*time.Millisecond) {
+				if i <= len(dones) && !c17Wait(dones[i-1], 150*time.Millisecond) {
 					div = fmt.Sprintf("model completes resize %d here, the real one is still pending", i)
 				}
 			case "lclose":
